@@ -156,6 +156,7 @@ func (g *c04gen) setup(out *[][]int64) []*c04op {
 func c04Generate(id int, seed uint64, region string, steps int) *c04hist {
 	r := newRng(seed)
 	g := c04NewGen(r, region)
+	g.sugarOK = region == "" && r.chance(30)
 	h := &c04hist{ID: id, Seed: seed, Region: region, Modelled: true}
 	var out [][]int64
 	dump := func() {
@@ -184,7 +185,7 @@ func c04Generate(id int, seed uint64, region string, steps int) *c04hist {
 		}
 	}
 	for _, o := range h.Ops {
-		if c04AnyOp(o, func(x *c04op) bool { return x.K == "sugar" }) {
+		if c04AnyOp(o, func(x *c04op) bool { return x.K == "sugar" || x.Unmodelled }) {
 			h.Modelled = false
 		}
 	}
@@ -247,8 +248,30 @@ func (g *c04gen) regionOp(out *[][]int64) *c04op {
 				o.Lvs = []*c04ex{l, c04MapL(c04Load(l), g.keyRv())}
 				o.Rvs = []*c04ex{g.rvOf(c04TMI, 1), c04IntLit(g.smallInt())}
 			}
+		case "multi-assign-nil":
+			o = &c04op{K: "multi"}
+			switch g.r.intn(3) {
+			case 0:
+				o.Lvs, o.Rvs = []*c04ex{g.lvOf(c04TPS, 1), g.lvOf(c04TInt, 1)}, []*c04ex{c04Nil(c04TPS), c04IntLit(g.smallInt())}
+			case 1:
+				o.Lvs, o.Rvs = []*c04ex{g.lvOf(c04TInt, 1), g.lvOf(c04TLI, 1)}, []*c04ex{c04IntLit(g.smallInt()), c04Nil(c04TLI)}
+			default:
+				o.Lvs, o.Rvs = []*c04ex{g.lvOf(c04TMI, 1), g.lvOf(c04TPS, 1)}, []*c04ex{c04Nil(c04TMI), c04Nil(c04TPS)}
+			}
+		case "append-multi-alias":
+			// append within capacity whose later arguments read the cells the earlier ones overwrite
+			lo := g.r.intn(3)
+			base := c04SliceEx(c04Addr(c04Var(7, c04TA4)), c04IntLit(int64(lo)), c04IntLit(int64(lo+1)), nil)
+			args := []*c04ex{g.rvOf(c04TInt, 1), c04Load(c04Idx(c04Var(7, c04TA4), c04IntLit(int64(lo+1))))}
+			if lo < 1 && g.r.bool() {
+				args = append(args, c04Load(c04Idx(c04Var(7, c04TA4), c04IntLit(int64(lo+2)))))
+			}
+			o = &c04op{K: "assign", Lv: g.lvOf(c04TLI, 1), Rhs: &c04rhs{K: "append", T: c04TLI, E: base, L: args}}
 		default:
-			return nil
+			o = g.regionSugar()
+			if o == nil {
+				continue
+			}
 		}
 		if !g.acceptable(o) {
 			continue
@@ -302,29 +325,11 @@ func runC04(args []string) error {
 		return err
 	}
 	sm := newSummary("C04")
-	nMain, nRegion := 250, 18
-	if *tier == "thorough" {
-		nMain, nRegion = 6000, 300
-	}
-	regions := c04Regions
-
 	// ---------------------------------------------------------------- generate
-	master := newRng(*seed)
-	var hs []*c04hist
-	id := 0
-	mk := func(region string, n int) {
-		for i := 0; i < n; i++ {
-			id++
-			steps := 5 + master.intn(56)
-			if region != "" {
-				steps = 6 + master.intn(20)
-			}
-			hs = append(hs, &c04hist{ID: id, Seed: master.next(), Region: region, Expect: nil, Ops: make([]*c04op, steps)})
-		}
-	}
-	mk("", nMain)
-	for _, rg := range regions {
-		mk(rg, nRegion)
+	ids, seeds, regs, steps := c04Plan(*tier, *seed)
+	hs := make([]*c04hist, len(ids))
+	for i := range ids {
+		hs[i] = &c04hist{ID: ids[i], Seed: seeds[i], Region: regs[i], Ops: make([]*c04op, steps[i])}
 	}
 	parallelMap(len(hs), 0, func(i int) {
 		h := hs[i]
@@ -408,6 +413,13 @@ func runC04(args []string) error {
 			sm.count("history:ends-in-panic")
 			if h.ref.End != "panic:"+h.PanicAt {
 				sm.count("panic-class-differs-from-go")
+			}
+		}
+		if h.impl.String() != h.ref.String() {
+			// several interpreters run in this process at once: confirm in a process of its own
+			if again := runYaegiChild(h.Src, 60*time.Second); again.String() != h.impl.String() {
+				sm.count("yaegi-outcome-not-reproducible-in-child-process")
+				h.impl = again
 			}
 		}
 		if h.impl.String() != h.ref.String() {
@@ -498,11 +510,11 @@ func init() {
 }
 
 func c04Plan(tier string, seed uint64) (ids []int, seeds []uint64, regions []string, steps []int) {
-	nMain, nRegion := 250, 18
+	nMain, nRegion := 230, 7
 	if tier == "thorough" {
-		nMain, nRegion = 6000, 300
+		nMain, nRegion = 6000, 150
 	}
-	master := newRng(seed)
+	master := newRng(seed).fork()
 	id := 0
 	mk := func(region string, n int) {
 		for i := 0; i < n; i++ {
@@ -521,7 +533,8 @@ func c04Plan(tier string, seed uint64) (ids []int, seeds []uint64, regions []str
 	return
 }
 
-var c04Regions = []string{"var-struct-lit", "multi-assign-call-or-lit", "multi-assign-map-entry"}
+var c04Regions = []string{"var-struct-lit", "multi-assign-call-or-lit", "multi-assign-map-entry", "multi-assign-nil", "append-multi-alias",
+	"range-ptr-array", "addr-of-ptr-array-elem", "arraylit-ptr-array-field", "method-value-receiver-alias", "defer-arg-alias", "named-result-alias", "interface-boxing-alias"}
 
 func c04Regenerate(tier string, seed uint64, id int) *c04hist {
 	ids, seeds, regions, steps := c04Plan(tier, seed)
